@@ -3,6 +3,7 @@ CONSTANTS Kinds = {"plain"}
           MixedServerSet = {}
           MixedCoreServers = {}
           MixedMethKeys = {"G", "GP"}
+          PlainMethKeys = {"G", "P", "GP"}
           MaxLen = 3
           MaxT = 3
           ServerSet = {"none", "rel", "relslash", "relroot", "abs", "absvar", "two", "psfirst", "pslast", "relpfx", "abspfx"}
